@@ -951,3 +951,73 @@ Lemma tricky_name_text :
     bs "0.9.2342.19200300.100.1.25=\#+O=\ +2.999.3=#0401ff,CN=\ #\,\+\""\\\<\>\;=\00" ++ [10; 195; 169; 240; 159; 152; 128]
     ++ bs "\ +tagLocation=#0202ff7f+1.2.840.113549.1.9.1=,C=ZZ".
 Proof. vm_compute. reflexivity. Qed.
+
+(* ---------- the two names of a certificate (getCertificateInfo, der.go:82/87) ---------- *)
+(* what an RFC 4514 reader must return for a name: its non-empty RDNs, most specific first *)
+Definition reads_as (rdns : list (list atv)) : option (list (list patv)) :=
+  Some (map (map patv_of) (filter nonempty (rev rdns))).
+
+(* rendering is applied to subject and issuer independently: whatever the two names are (and
+   however they are related), the Subject text reads back as the subject and the Issuer text
+   as the issuer *)
+Lemma cert_names_roundtrip ds di s i : name_ok s -> name_ok i ->
+  parse_rdns (fst (cert_names (ds, Some s) (di, Some i))) = reads_as s /\
+  parse_rdns (snd (cert_names (ds, Some s) (di, Some i))) = reads_as i.
+Proof. intros Hs Hi. split; [exact (roundtrip_rdns s Hs)|exact (roundtrip_rdns i Hi)]. Qed.
+
+(* the two lines of a certificate show the same text only if issuer and subject are the same
+   name: same RDNs in the same order, same grouping, same OIDs, same values *)
+Lemma cert_names_same_text ds di s i : name_ok s -> name_ok i ->
+  fst (cert_names (ds, Some s) (di, Some i)) = snd (cert_names (ds, Some s) (di, Some i)) ->
+  map (map akey) (filter nonempty (rev s)) = map (map akey) (filter nonempty (rev i)).
+Proof. intros Hs Hi E. exact (unambiguous s i Hs Hi E). Qed.
+
+(* a name the library decoded: its bytes and the decoded RDNs *)
+Definition decoded_name : Type := (bytes * list (list atv))%type.
+Definition as_raw (n : decoded_name) : raw_name := (fst n, Some (snd n)).
+
+(* every certificate of a bundle / keystore: both texts read back as its own names *)
+Lemma carrier_names_roundtrip (certs : list (decoded_name * decoded_name)) :
+  Forall (fun c => name_ok (snd (fst c)) /\ name_ok (snd (snd c))) certs ->
+  map (fun t => (parse_rdns (fst t), parse_rdns (snd t)))
+      (carrier_names (map (fun c => (as_raw (fst c), as_raw (snd c))) certs))
+  = map (fun c => (reads_as (snd (fst c)), reads_as (snd (snd c)))) certs.
+Proof.
+  induction 1 as [|c l [Hs Hi] _ IH]; [reflexivity|].
+  unfold carrier_names in *. cbn [map]. f_equal; [|exact IH].
+  destruct (cert_names_roundtrip (fst (fst c)) (fst (snd c)) _ _ Hs Hi) as [E1 E2].
+  f_equal; [exact E1|exact E2].
+Qed.
+
+(* related names (the witnesses of the seeded shortcut "render once when pkix.Name.String()
+   is equal"): the same RDNs in another order; one multi-valued RDN against two RDNs *)
+Definition acme_subject : list (list atv) :=
+  [[([2; 5; 4; 6], GStr (bs "US"))]; [([2; 5; 4; 10], GStr (bs "Acme, Inc."))]; [(cn, GStr (bs "Acme CA"))]].
+Definition acme_issuer : list (list atv) :=
+  [[([2; 5; 4; 10], GStr (bs "Acme, Inc."))]; [([2; 5; 4; 6], GStr (bs "US"))]; [(cn, GStr (bs "Acme CA"))]].
+Definition two_rdns : list (list atv) := [[(cn, GStr (bs "x"))]; [([2; 5; 4; 10], GStr (bs "a+b"))]].
+Definition one_rdn : list (list atv) := [[(cn, GStr (bs "x")); ([2; 5; 4; 10], GStr (bs "a+b"))]].
+
+Lemma related_names_ok : name_ok acme_subject /\ name_ok acme_issuer /\ name_ok two_rdns /\ name_ok one_rdn.
+Proof.
+  unfold acme_subject, acme_issuer, two_rdns, one_rdn, name_ok.
+  repeat split; repeat (apply Forall_cons || apply Forall_nil);
+    (split; [cbn; lia|vm_compute; reflexivity]).
+Qed.
+
+Lemma related_names_text :
+  cert_names ([], Some acme_subject) ([], Some acme_issuer)
+    = (bs "CN=Acme CA,O=Acme\, Inc.,C=US", bs "CN=Acme CA,C=US,O=Acme\, Inc.") /\
+  cert_names ([], Some two_rdns) ([], Some one_rdn) = (bs "O=a\+b,CN=x", bs "CN=x+O=a\+b").
+Proof. split; vm_compute; reflexivity. Qed.
+
+(* the escaping decisions are by BYTE position (x500.go:94-122: k == 0, k == len(s)-1) while
+   the loop walks runes: a space after a multi-byte character is the last BYTE and is escaped;
+   a '#' after a combining mark is not first and is not *)
+Lemma multibyte_positions :
+  escape_gen true (utf8 [233; 32]) = utf8 [233; 92; 32] /\
+  escape_gen true (utf8 [32; 128512; 32]) = utf8 [92; 32; 128512; 92; 32] /\
+  escape_gen true (utf8 [769; 35]) = utf8 [769; 35] /\
+  escape_gen true (utf8 [35; 769]) = utf8 [92; 35; 769] /\
+  escape_gen true (utf8 [8364; 32; 32]) = utf8 [8364; 32; 92; 32].
+Proof. repeat split; vm_compute; reflexivity. Qed.
